@@ -7,6 +7,7 @@ import QuiverModel.Lemmas.Packaging.Nested
 import QuiverModel.Lemmas.Packaging.Canon
 import QuiverModel.Lemmas.Packaging.Mark
 import QuiverModel.Lemmas.Packaging.Reach
+import QuiverModel.Lemmas.Packaging.ReachTransfer
 import QuiverModel.Core.Packaging.Merge
 import QuiverModel.Lemmas.Packaging.MergeImport
 import QuiverModel.Lemmas.Packaging.MergeFrame
@@ -722,6 +723,34 @@ theorem treeShake_keeps_exactly_reachable {P : Prog} {e : Nat} {out : ShakeOut} 
   exact ⟨fun f => ⟨hj.fns f, hr (.fn f)⟩, fun c => ⟨hj.consts c, hr (.const c)⟩,
     fun u => ⟨hj.tuples u, hr (.tuple u)⟩, fun t => ⟨hj.types t, hr (.ty t)⟩,
     fun b => ⟨hj.builtins b, hr (.builtin b)⟩, hj.resources⟩
+
+/-- **(T2, semantic half) The shaken program has no dead entry.** Every function, constant, tuple, type and builtin of
+    `tree_shake(P, e)` is reachable from the new entry IN the shaken program — for every program and entry.
+    (`reach_transfer`: reachability transfers along the sweep's renaming, including the "first `Type::Tuple` entry"
+    rule — the sweep is order preserving, `shake_first_tuple` — and the index-only rule; `rank_onto`: every index of a
+    shaken table is the rank of a kept id; `markAll_nodup`: the marks are duplicate-free.) -/
+theorem treeShake_result_has_no_dead_entries {P : Prog} {e : Nat} {out : ShakeOut} (h : treeShake P e = some out) :
+    (∀ f, f < out.prog.fns.size → Reach out.prog out.entry (.fn f)) ∧
+    (∀ c, c < out.prog.consts.size → Reach out.prog out.entry (.const c)) ∧
+    (∀ u, u < out.prog.tuples.size → Reach out.prog out.entry (.tuple u)) ∧
+    (∀ t, t < out.prog.types.size → Reach out.prog out.entry (.ty t)) ∧
+    (∀ b, b < out.prog.builtins.size → Reach out.prog out.entry (.builtin b)) :=
+  shaken_all_reachable (treeShake_marks h) (treeShake_sweep h)
+
+/-- **(T2) A second shake drops nothing**: if `tree_shake` is run again on its own output, every function, constant,
+    tuple, type and builtin of that output is marked (kept) — for every program and entry. What is NOT proved is the
+    syntactic rest of idempotence (the second output is the same bytecode with the identity renaming: a sorted
+    duplicate-free list over exactly `[0, n)` is `range n`, and the sweep under the identity tables is the identity);
+    the driver checks it on every shake of the run. -/
+theorem treeShake_second_shake_drops_nothing {P : Prog} {e : Nat} {out out2 : ShakeOut}
+    (h : treeShake P e = some out) (h2 : treeShake out.prog out.entry = some out2) :
+    (∀ f, f < out.prog.fns.size → f ∈ out2.marks.fns) ∧ (∀ c, c < out.prog.consts.size → c ∈ out2.marks.consts) ∧
+    (∀ u, u < out.prog.tuples.size → u ∈ out2.marks.tuples) ∧ (∀ t, t < out.prog.types.size → t ∈ out2.marks.types) ∧
+    (∀ b, b < out.prog.builtins.size → b ∈ out2.marks.builtins) := by
+  obtain ⟨a, b, c, d, f⟩ := treeShake_result_has_no_dead_entries h
+  obtain ⟨a2, b2, c2, d2, f2, _⟩ := treeShake_keeps_exactly_reachable h2
+  exact ⟨fun x hx => (a2 x).mpr (a x hx), fun x hx => (b2 x).mpr (b x hx), fun x hx => (c2 x).mpr (c x hx),
+    fun x hx => (d2 x).mpr (d x hx), fun x hx => (f2 x).mpr (f x hx)⟩
 
 /-- A spawning program in miniature: the entry spawns function 1, whose callable type (entry 1) receives
     and returns `'int`; the process type of the pids it creates is entry 2 — named by no instruction
